@@ -39,7 +39,8 @@ CORR = (1, 2, 3, 4, 5, 6, 7)
 # oracle tag -> [(guard tag that must be present (= guard false), finding id)]
 ORACLE = {
     11: [],
-    12: [(203, 'C16-INDEX-CRASH'), (205, 'C16-ANNOT-TORN'), (201, 'C16-ANNOT-NEWLINE'), (207, 'C16-DATAINFO-LOST')],
+    12: [(203, 'C16-INDEX-CRASH'), (205, 'C16-ANNOT-TORN'), (201, 'C16-ANNOT-NEWLINE'), (207, 'C16-DATAINFO-LOST'),
+         (208, 'C16-NAME-REBIND')],
     13: [(204, 'C16-PENDING-RETRANSACT'), (205, 'C16-ANNOT-TORN'), (201, 'C16-ANNOT-NEWLINE')],
     14: [(203, 'C16-INDEX-CRASH')],
     16: [(201, 'C16-ANNOT-NEWLINE'), (205, 'C16-ANNOT-TORN')],
@@ -223,13 +224,15 @@ class Canon:
         h = 'None'
         if v['ds'] is not None:
             h = f"(Some {self.n(self.dhid[self.vinfo[v['ds']]['dh']])})"
+        eqk = sorted({self.keyid[self.vinfo[self.models[mk]['variant']]['key']] for mk in v['eq']})
         return (f"(VEntry {h} {self.n(v['n'])} {ct.boolean(v['has_res'])} {self.s(v['desc'] or '')} "
-                f"{ct.boolean(v['equiv'])})")
+                + ct.lst([self.n(k) for k in eqk]) + ")")
 
 
 def case_term(cn, spec, obs):
     """Gallina term of type C16.Check.case, or None when an observed event has no counterpart in the model."""
     models = spec['models']
+    cn.models = models
     root = obs['root']
     ev1 = [cn.event(root, e) for e in obs['ev1']]
     ev2 = [cn.event(root, e) for e in obs['ev2']]
@@ -302,6 +305,9 @@ def mspec(variant, name, desc=None, res=False):
 
 TEXTS = ['plain text', 'PHENOBARB SIMPLE MODEL', 'a,b', 'q"uo"te', '', ' lead', 'trail ', 'x=1; y=2', 'tab\there',
          'é€ unicode', 'semi;colon', 'hash # mark', "it's", 'multi  space', 'back\\slash']
+# descriptions of MODELS must be accepted by pharmpy's NONMEM writer ($PROBLEM title: latin-1, no leading blank):
+# anything else raises inside the transaction (write_model), a path the model does not cover
+MODEL_DESCS = [t for t in TEXTS if t not in (' lead', 'é€ unicode')]
 BAD_ANNOT = ['line1\nline2', 'cr\rx', 'end\r']
 LOG_TEXTS = TEXTS + ['multi\nline', 'cr\rx', 'crlf\r\ny', '""', '"', 'run 1 done', 'Model failed: NaN in OFV']
 BAD_LOG = ['NA', '', 'null', 'nan', 'None', 'N/A', '1', '1.5', 'True', 'inf', 'x\x00y', '#N/A']
@@ -310,12 +316,11 @@ BAD_LOG = ['NA', '', 'null', 'nan', 'None', 'N/A', '1', '1.5', 'True', 'inf', 'x
 def recovery_items(spec_w1, models, extra_stores=True):
     """fresh objects: read everything back, then store every model again under a new name"""
     w2 = [['init']]
-    names = []
+    last = {}
     for it in spec_w1:
         if it[0] == 'store':
-            nm = models[it[1]]['name']
-            if (nm, it[1]) not in names:
-                names.append((nm, it[1]))
+            last[models[it[1]]['name']] = it[1]
+    names = list(last.items())
     for nm, mk in names:
         w2.append(['retrieve', nm, mk])
     seen = set()
@@ -360,7 +365,8 @@ def fixed_workloads():
          'w1': [['init'], ['store', 'P'], ['store', 'I'], ['log', 'info', 'stored two models', None]]}
     B = {'models': {'P': mspec('pheno', 'base', 'base model'), 'C': mspec('pheno', 'copy', 'same key, other name'),
                     'D': mspec('data', 'newdata', 'other dataset')},
-         'w1': [['init'], ['store', 'P'], ['store', 'C'], ['annot', 'base', 'edited description'], ['store', 'D']]}
+         'w1': [['init'], ['store', 'P'], ['store', 'C'], ['annot', 'base', 'edited description'], ['store', 'P'],
+                ['store', 'D']]}
     C = {'models': {'T': mspec('ditype', 'dityp', 'other datainfo'), 'P': mspec('pheno', 'pheno', 'plain'),
                     'D': mspec('data', 'dat', 'third')},
          'w1': [['init'], ['store', 'T'], ['meta', 'T', 7], ['log', 'warning', 'q"uo"te, comma', 'T'], ['store', 'P'],
@@ -375,9 +381,9 @@ def gen_workload(rng, nitems):
     for i in range(nm):
         v = rng.choice(variants)
         name = rng.choice(['m%d' % i, 'run%d' % i, 'final', 'input', 'mod_%d' % i])
-        if any(ms['name'] == name for ms in models.values()):
+        if any(ms['name'] == name for ms in models.values()) and rng.random() < 0.7:
             name += str(i)
-        models[f'M{i}'] = mspec(v, name, rng.choice(TEXTS), res=rng.random() < 0.3)
+        models[f'M{i}'] = mspec(v, name, rng.choice(MODEL_DESCS), res=rng.random() < 0.3)
     w1 = [['init']]
     mks = sorted(models)
     for _ in range(nitems):
@@ -429,12 +435,40 @@ def crash_points(events, dense=True):
         if e['ev'] == 'open' and (fl & os.O_ACCMODE) == os.O_WRONLY and fl & (os.O_TRUNC | os.O_APPEND):
             rel = e['path']
             blob = bool(W.BLOB_NAMES.search(rel)) and '.hash' not in rel.split('/')
-            for j in ((0, 2) if blob else (0, 9, 40)) if dense else ((2,) if blob else (9,)):
+            for j in ((2,) if blob else (0, 9)) if dense else ((2,) if blob else (9,)):
                 pts.append((k, j))
     return sorted(set(pts), key=lambda p: (p[0], -1 if p[1] is None else p[1]))
 
 
-def expand_crashes(ctx, workloads, label, dense=True, limit=None):
+def light(spec):
+    """the same case without the retrievals of the re-stored models (they cost most of the recovery time)"""
+    c = dict(spec)
+    named = {spec['models'][it[2]]['variant'] for it in spec['w2'] if it[0] == 'retrieve'}
+    c['w2'] = [it for it in spec['w2']
+               if not (it[0] == 'retrieve' and it[2].startswith('post_'))
+               and not (it[0] == 'dbretrieve' and spec['models'][it[1]]['variant'] in named)]
+    return c
+
+
+def two_item_workloads():
+    """every workload of one or two items over a 7-item alphabet (thorough tier)"""
+    models = {'A': mspec('pheno', 'a', 'first'), 'B': mspec('init', 'b', 'shares the dataset'),
+              'C': mspec('pheno', 'c', 'same key as a'), 'D': mspec('data', 'd', 'other dataset', res=True)}
+    alphabet = [['store', 'A'], ['store', 'B'], ['store', 'C'], ['dbstore', 'D'], ['meta', 'A', 3],
+                ['annot', 'a', 'new text'], ['log', 'info', 'note, "quoted"', 'A']]
+    out = []
+    for x in alphabet:
+        out.append([x])
+        for y in alphabet:
+            out.append([x, y])
+    res = []
+    for items in out:
+        used = {it[1] for it in items if it[0] in ('store', 'dbstore', 'meta')} | {'A', 'B'}
+        res.append({'models': {k: v for k, v in models.items() if k in used}, 'w1': [['init']] + items})
+    return res
+
+
+def expand_crashes(ctx, workloads, label, dense=True, limit=None, lighten=False):
     """reference run (no crash) of every workload to learn its events, then one spec per crash point"""
     refs = []
     for wl in workloads:
@@ -452,7 +486,7 @@ def expand_crashes(ctx, workloads, label, dense=True, limit=None):
         if limit is not None and len(pts) > limit:
             pts = ctx.rng.sample(pts, limit)
         for k, j in pts:
-            c = dict(s)
+            c = light(s) if (lighten and k % 2 == 1) else dict(s)
             c['crash'], c['torn'] = k, j
             crash_specs.append(c)
     cobs = run_real(ctx, crash_specs, label + '-crash')
@@ -543,7 +577,8 @@ def run(ctx):
         'ModelHash / DatasetHash are collision free (keys and dataset hashes are abstract identifiers in the model)',
         'pandas.read_csv type inference of an all-numeric / all-boolean / all-NA message column is an engine: the model '
         'answers "unmodelled" there and only the oracle (verbatim read-back) is evaluated',
-        'only top-level contexts (no subcontexts), NONMEM models (model.ctl), UTF-8 encodable text',
+        'only top-level contexts (no subcontexts), NONMEM models (model.ctl), UTF-8 encodable text; model descriptions '
+        'are valid NONMEM titles (write_model raising inside the transaction is not modelled)',
     ]
     ctx.coverage['source_sha'] = source_sha(
         'src/pharmpy/workflows/model_database/local_directory.py', 'src/pharmpy/workflows/model_database/baseclass.py',
@@ -558,9 +593,16 @@ def run(ctx):
             specs += reg
             obs += run_real(ctx, reg, 'regress')
         quick = ctx.tier == 'quick'
-        s1, o1 = expand_crashes(ctx, fixed_workloads(), 'fixed', dense=True)
+        fw = fixed_workloads()
+        if quick:
+            s1, o1 = expand_crashes(ctx, fw[:1], 'fixed', dense=True, lighten=True)
+            s1b, o1b = expand_crashes(ctx, fw[1:], 'fixedc', dense=False, limit=24, lighten=True)
+            s1, o1 = s1 + s1b, o1 + o1b
+        else:
+            s1, o1 = expand_crashes(ctx, fw, 'fixed', dense=True)
         specs += s1
         obs += o1
+        ctx.log(f'fixed workloads: {len(s1)} cases run on the implementation')
         ncodec = 24 if quick else 400
         codec = []
         for _ in range(ncodec):
@@ -570,12 +612,20 @@ def run(ctx):
             codec.append(wl)
         specs += codec
         obs += run_real(ctx, codec, 'codec')
-        nrand = 3 if quick else 60
+        nrand = 3 if quick else 24
         rand = [gen_workload(ctx.rng, ctx.rng.choice([1, 2, 3, 4])) for _ in range(nrand)]
-        s2, o2 = expand_crashes(ctx, rand, 'rand', dense=not quick, limit=10 if quick else 40)
+        s2, o2 = expand_crashes(ctx, rand, 'rand', dense=not quick, limit=8 if quick else 20, lighten=quick)
         specs += s2
         obs += o2
+        if not quick:
+            s3, o3 = expand_crashes(ctx, two_item_workloads(), 'two', dense=False, limit=10, lighten=True)
+            specs += s3
+            obs += o3
+            ctx.coverage['exhaustive_note'] = ('every workload of 1 or 2 items over a 7-item alphabet (56 workloads) with 10 '
+                                               'sampled crash points each; workloads of 3-4 items are sampled, not enumerated')
+        ctx.log(f'{len(specs)} cases run on the implementation; comparing inside Coq')
         kept, kept_obs, verdicts = verdicts_of(ctx, specs, obs, 'gen')
+        ctx.log('verdicts computed')
         stats = {'ok': 0, 'known': 0, 'violation': 0, 'broken': 0}
         for s, v in zip(kept, verdicts):
             stats[classify(ctx, s, v)] += 1
@@ -595,7 +645,7 @@ def run(ctx):
             'events_w2_total': sum(len(o['ev2']) for o in kept_obs),
             'recovery_item_errors': _hist(o2_['err'] for o in kept_obs for o2_ in o['out2'].values() if not o2_['ok']),
             'w1_item_errors': _hist(o1_['err'] for o in kept_obs for o1_ in o['out1'].values() if not o1_['ok']),
-            'guard_false': {str(g): sum(1 for v in verdicts if g in v) for g in (201, 202, 203, 204, 205, 206, 207)},
+            'guard_false': {str(g): sum(1 for v in verdicts if g in v) for g in (201, 202, 203, 204, 205, 206, 207, 208)},
             'oracle_tags': {str(t): sum(1 for v in verdicts if t in v) for t in ORACLE},
             'inconclusive_subchecks': sum(1 for v in verdicts for t in v if t >= 1000),
             'workload_lengths': _hist(len(s['w1']) for s in kept),
